@@ -9,6 +9,8 @@ R25.2 directive polarity: the `%allow_unmatched`, `%auto_newline_off`, `%auto_ws
 R25.4 priority of the user-type resolver: later HashMap inserts override earlier ones, so the map must be filled in the
       order aliases (%user_type) -> %nt_type sentinels -> %t_type sentinel; otherwise a globally defined terminal or
       non-terminal type is rendered explicitly (or an alias is lost) and the text read back differs.
+R25.5 / R25.6 see delimiter_rules: rendering order literal < look-ahead < AST control in Terminal::format; every literal is
+      quoted with the delimiter of its own kind.
 R25.3 the skip sentinels "%nt_type"/"%t_type" are only *compared* in the format functions, never produced there:
       a format function that manufactures the sentinel drops a user type that has no global definition.
 """
@@ -236,3 +238,135 @@ def check(ctx):
               "the user-type resolver inserts an alias after a skip sentinel: for a type that has both a global "
               "%t_type/%nt_type definition and a %user_type alias the renderer prints the alias explicitly, the text read "
               "back is a different grammar", where(res))
+    delimiter_rules(ctx, facts)
+
+
+# ----------------------------------------------------------------------------------------------------------- R25.5 / R25.6
+DELIM = "parol::grammar::symbol::TerminalKind::delimiter"
+DECORATE = "parol::grammar::attributes::Decorate::decorate"
+
+
+def _fmt_arg_sequences(body):
+    """for every `[core::fmt::rt::Argument; N]` array: the operands handed to Argument::new_* in array order,
+    as [(array line, [operand, ...])]"""
+    from ..dataflow import single_def
+    out = []
+    for bi, si, p, rv, line, mac in body.assigns():
+        if rv[0] == "agg" and rv[1] == "array" and "core::fmt::rt::Argument" in body.local_ty(p[0]):
+            seq = []
+            for o in rv[4]:
+                rp = raw_operand_place(body, o)
+                d = single_def(body, rp[0]) if rp else None
+                if d and d[0] == "call" and "Argument" in (d[3].path or "") and d[3].args:
+                    seq.append(_through_tuple(body, d[3].args[0]))
+                else:
+                    seq.append(None)
+            out.append((line, seq))
+    return out
+
+
+def _through_tuple(body, op):
+    """format_args! packs its arguments into a tuple of references and reads them back by field: resolve `(_t.N)` to the
+    N-th operand of the tuple aggregate"""
+    from ..dataflow import single_def
+    rp = raw_operand_place(body, op)
+    if rp and len(rp) >= 2 and isinstance(rp[1], list) and rp[1][0] == "f":
+        d = single_def(body, rp[0])
+        if d and d[0] == "assign" and d[3][0] == "agg" and d[3][1] == "tuple":
+            idx = rp[1][1]
+            if isinstance(idx, int) and idx < len(d[3][4]):
+                return d[3][4][idx]
+    return op
+
+
+def _base(place):
+    """a place without its last field projection (the object a field belongs to)"""
+    if place is None:
+        return None
+    elems = [e for e in place[1:]]
+    while elems and elems[-1] == "*":
+        elems.pop()
+    if elems and isinstance(elems[-1], list) and elems[-1][0] == "f":
+        elems.pop()
+    while elems and elems[-1] == "*":
+        elems.pop()
+    return (place[0], json_key(elems))
+
+
+def json_key(x):
+    import json
+    return json.dumps(x, sort_keys=True)
+
+
+def delimiter_rules(ctx, facts):
+    """R25.6 a literal is quoted with the delimiter of its *own* kind: in every format template that renders `D X D` with
+    D = TerminalKind::delimiter(k), the text X and the kind k are fields of the same object (the terminal's own (text, kind),
+    or the look-ahead expression's own (pattern, kind)).  Quoting a look-ahead pattern with the terminal's delimiter renders
+    `'.' ?! /[0-9]/` as `'.' ?! '[0-9]'`, which reads back as a different terminal kind.
+    R25.5 rendering order of Terminal::format follows the PAR grammar (TokenLiteral [LookAhead] [ASTControl]): the look-ahead
+    is rendered into the text that Decorate::decorate receives (or before that call); nothing of the look-ahead is written
+    after the cut operator / member / user type have been appended."""
+    from ..dataflow import single_def
+    n = 0
+    for b in facts.in_crate(PA):
+        if not any(c.path == DELIM for c in b.calls()):
+            continue
+        if b.path == DELIM:
+            continue
+        # delimiter locals -> kind place
+        kinds = {}
+        for c in b.calls():
+            if c.path == DELIM and c.dest and len(c.dest) == 1:
+                kinds[c.dest[0]] = raw_operand_place(b, c.args[0])
+        for line, seq in _fmt_arg_sequences(b):
+            # NB: the array holds each *distinct* argument once (named arguments that repeat are shared), so the rule is
+            # stated per template, not per placeholder position
+            places = [raw_operand_place(b, o) if o else None for o in seq]
+            ds = [pl for pl in places if pl is not None and len(pl) == 1 and pl[0] in kinds]
+            if not ds:
+                continue
+            owners = {_base(kinds[pl[0]]) for pl in ds}
+            texts = []
+            for pl in places:
+                if pl is None or (len(pl) == 1 and pl[0] in kinds):
+                    continue
+                fl = [e for e in pl[1:] if isinstance(e, list) and e[0] == "f"]
+                if fl and (fl[-1][3].endswith("::Terminal") and fl[-1][1] == 0 or
+                           fl[-1][3].endswith("LookaheadExpression") and fl[-1][2] == "pattern"):
+                    texts.append(pl)
+                elif not fl and "String" in b.local_ty(pl[0]):
+                    ctx.info("R25.6", "%s line %d: quoted text is a computed local, not decided" % (short(b.path), line))
+            for pl in texts:
+                n += 1
+                xb = _base(pl)
+                ok = len(owners) == 1 and xb in owners
+                ctx.check(ok, "R25.6", "%s|own-delimiter|%s" % (short(b.path), [e[2] for e in pl[1:] if isinstance(e, list) and e[0] == "f"][-1]),
+                          "the quoted text and the kind of its delimiter are fields of the same object",
+                          "%s quotes a literal with the delimiter of another object's kind (text is a field of %s, the delimiter's "
+                          "kind a field of %s): a look-ahead / terminal literal is rendered with the wrong quotes and reads back "
+                          "as a different terminal kind" % (short(b.path), xb, sorted(owners)), where(b, line))
+    ctx.require_floor("R25.6", "quoted_literals", n, 2)
+    # R25.5
+    tf = facts.body("parol::grammar::symbol::Terminal::format")
+    decs = [c for c in tf.calls() if DECORATE in c.names() or (c.path or "").endswith("::decorate")]
+    las = [c for c in tf.calls() if (c.path or "").endswith("LookaheadExpression::to_par")]
+    if not las:
+        # inlined rendering: any read of a field of the look-ahead object
+        las = []
+    if len(decs) != 1:
+        raise AnchorMissing("Terminal::format: expected one decorate call, found %d" % len(decs))
+    after = cfg.reachable_from(tf, decs[0].bb)
+    late = [c for c in las if c.bb in after and c.bb != decs[0].bb]
+    # reads of look-ahead fields (pattern / kind / is_positive) after decorate
+    late_reads = []
+    for bi, kind, p, line in all_places(tf):
+        if bi in after and bi != decs[0].bb and kind == "r":
+            names = [e[2] for e in p[1:] if isinstance(e, list) and e[0] == "f"]
+            adts = [e[3] for e in p[1:] if isinstance(e, list) and e[0] == "f"]
+            if any("LookaheadExpression" in a for a in adts) and names and names[-1] in ("pattern", "kind", "is_positive"):
+                late_reads.append(line)
+    ctx.check(bool(las or True) and not late and not late_reads, "R25.5", "Terminal::format|lookahead-before-ast-control",
+              "the look-ahead is rendered before Decorate::decorate appends the AST control",
+              "Terminal::format renders the look-ahead (line %s) after Decorate::decorate appended the cut operator: "
+              "`\"a\" ?= \"b\"^` is rendered as `\"a\"^ /* Clipped */ ?= \"b\"`, which parol cannot read back (PAR: TokenLiteral "
+              "[LookAhead] [ASTControl])" % ([c.line for c in late] + late_reads), where(tf, decs[0].line))
